@@ -75,7 +75,17 @@ func loadKnown() {
 // KnownFunc reports whether the qualified function name existed on the reference tree.
 func KnownFunc(qname string) bool {
 	loadKnown()
-	return knownSet[qname]
+	if knownSet[qname] {
+		return true
+	}
+	// a method keeps its identity when its receiver changes between T and *T
+	switch {
+	case strings.HasPrefix(qname, "(*"):
+		return knownSet["("+qname[2:]]
+	case strings.HasPrefix(qname, "("):
+		return knownSet["(*"+qname[1:]]
+	}
+	return false
 }
 
 func sigString(fn *ssa.Function) string {
@@ -131,10 +141,73 @@ func (p *Program) computeAliases() {
 		}
 		groups[k].added = append(groups[k].added, fn)
 	}
+	// a method whose receiver changed between T and *T is the same method
+	flip := func(q string) string {
+		switch {
+		case strings.HasPrefix(q, "(*"):
+			return "(" + q[2:]
+		case strings.HasPrefix(q, "("):
+			return "(*" + q[1:]
+		}
+		return ""
+	}
+	flipped := map[*ssa.Function]bool{}
+	for q, fn := range present {
+		if knownSet[q] {
+			continue
+		}
+		if o := flip(q); o != "" && knownSet[o] && present[o] == nil {
+			p.funcAlias[fn] = o
+			p.aliasByOld[o] = fn
+			flipped[fn] = true
+		}
+	}
 	for _, g := range groups {
+		var missing []knownFunc
+		for _, m := range g.missing {
+			if p.aliasByOld[m.qname] == nil {
+				missing = append(missing, m)
+			}
+		}
+		var added []*ssa.Function
+		for _, a := range g.added {
+			if !flipped[a] {
+				added = append(added, a)
+			}
+		}
+		g.missing, g.added = missing, added
 		if len(g.missing) == 1 && len(g.added) == 1 {
 			p.funcAlias[g.added[0]] = g.missing[0].qname
 			p.aliasByOld[g.missing[0].qname] = g.added[0]
+		}
+	}
+	// a method turned into a function of the same name (or back): same package, the name unique on both sides
+	bare := func(q string) string {
+		if i := strings.LastIndex(q, "."); i >= 0 {
+			return q[i+1:]
+		}
+		return q
+	}
+	missingByName := map[string][]knownFunc{}
+	for _, kf := range knownFuncsL {
+		if _, ok := present[kf.qname]; !ok && p.aliasByOld[kf.qname] == nil {
+			k := kf.pkg + "|" + bare(kf.qname)
+			missingByName[k] = append(missingByName[k], kf)
+		}
+	}
+	addedByName := map[string][]*ssa.Function{}
+	for q, fn := range present {
+		if knownSet[q] || p.funcAlias[fn] != "" {
+			continue
+		}
+		k := fn.Package().Pkg.Path() + "|" + fn.Name()
+		addedByName[k] = append(addedByName[k], fn)
+	}
+	for k, ms := range missingByName {
+		as := addedByName[k]
+		if len(ms) == 1 && len(as) == 1 && (strings.HasPrefix(ms[0].qname, "(") != (as[0].Signature.Recv() != nil)) {
+			p.funcAlias[as[0]] = ms[0].qname
+			p.aliasByOld[ms[0].qname] = as[0]
 		}
 	}
 	// struct fields
